@@ -124,13 +124,20 @@ fn explore<T: SpecT>(ctx: &mut Ctx, rs: &RefSpec, depth: usize, reader_side: boo
                 let is_master = rs.ty(probe) == Some(Ty::Master);
                 let has_glob = gen::path_has_glob(rs.path(probe));
                 // ---------------- writer side: chain all known-size / all unknown-size, probe default / unknown-size start
-                let mut variants: Vec<(bool, WOpt)> = vec![(false, WOpt::Default), (true, WOpt::Default)];
+                let mut variants: Vec<(bool, WOpt, bool)> = vec![(false, WOpt::Default, false), (true, WOpt::Default, false)];
                 if is_master {
-                    variants.push((false, WOpt::Unknown));
-                    variants.push((true, WOpt::UnknownDeprecated));
+                    variants.push((false, WOpt::Unknown, false));
+                    variants.push((true, WOpt::UnknownDeprecated, false));
                 }
-                for (chain_unknown, popt) in variants {
-                    let d = || format!("{} spec {{{}}} writer: open chain [{}]{} then {}{:?}", label, spec_short(rs), chain.iter().map(|i| rs.name(*i)).collect::<Vec<_>>().join("/"), if chain_unknown { " (unknown-size)" } else { "" }, rs.name(probe), popt);
+                // the chain is what the ACCEPTED calls built: a rejected End in between (of a master that is not the
+                // innermost open one) changes no decision
+                let wrong_end = masters.iter().copied().find(|m| Some(m) != chain.last());
+                if wrong_end.is_some() {
+                    variants.push((false, WOpt::Default, true));
+                    variants.push((true, WOpt::Default, true));
+                }
+                for (chain_unknown, popt, rejected_end_first) in variants {
+                    let d = || format!("{} spec {{{}}} writer: open chain [{}]{}{} then {}{:?}", label, spec_short(rs), chain.iter().map(|i| rs.name(*i)).collect::<Vec<_>>().join("/"), if chain_unknown { " (unknown-size)" } else { "" }, if rejected_end_first { " then a REJECTED End of another master" } else { "" }, rs.name(probe), popt);
                     if !ctx.enter(&d) {
                         continue;
                     }
@@ -147,6 +154,13 @@ fn explore<T: SpecT>(ctx: &mut Ctx, rs: &RefSpec, depth: usize, reader_side: boo
                         }
                     }
                     ctx.transitions += chain.len() as u64 + 1;
+                    if setup_ok && rejected_end_first {
+                        ctx.transitions += 1;
+                        ctx.count("writer_probe_after_a_rejected_end", 1);
+                        if apply_call::<T>(&mut w, &WCall::Tag(NItem::End(wrong_end.unwrap()), WOpt::Default)).is_ok() {
+                            ctx.violation("writer/accepts-end-of-a-master-that-is-not-innermost", &d, "");
+                        }
+                    }
                     if !setup_ok {
                         // the chain is reference-reachable: each Start was itself a probe one level up and is reported there
                         ctx.count("chain_setup_rejected(reported at the shorter chain)", 1);
@@ -284,10 +298,10 @@ fn explore<T: SpecT>(ctx: &mut Ctx, rs: &RefSpec, depth: usize, reader_side: boo
 pub fn run(ctx: &mut Ctx) {
     let depth = ctx.tier.pick(5, 6);
     let max_placeholders = ctx.tier.pick(2, 3);
-    ctx.meta("rule", "cases: (specification, reference-reachable chain of open masters, probe tag, side/variant). Specifications: every forest of <= 4 masters (33 parent vectors) with a leaf under each, placeholder edges (min-max), min in {none,0,1,2}, max in {none,1,2,3}, on master edges (intermediate position for everything below), on a trailing leaf and on <= 2 global leaves, at most the stated number of placeholders per specification, ids of every byte length 1..8, served through a runtime table-driven EbmlSpecification; plus the macro-derived V and W (W has placeholders in trailing and intermediate position). For every chain reachable in the REFERENCE transition relation up to the depth bound, every tag of the specification is probed: writer (chain known-size / unknown-size; probe written plainly, and for masters also started with unknown size via both calls) and strict reader (byte stream = chain headers with none / all / each single / all-but-one unknown-size + probe; and the same streams with an element of an id outside the specification in front of the probe, unknown ids tolerated, which must change no decision). Oracle: accepted iff ref_path_match(path(tag), chain) (root elements iff empty chain); reader: judged against the chain remaining after the closings RefClose prescribes, with the Ends emitted first; rejections are UnexpectedTag / HierarchyError carrying the probe id. Non-trivial: probes whose path contains a placeholder under a non-empty chain.");
+    ctx.meta("rule", "cases: (specification, reference-reachable chain of open masters, probe tag, side/variant). Specifications: every forest of <= 4 masters (33 parent vectors) with a leaf under each, placeholder edges (min-max), min in {none,0,1,2}, max in {none,1,2,3}, on master edges (intermediate position for everything below), on a trailing leaf and on <= 2 global leaves, at most the stated number of placeholders per specification, ids of every byte length 1..8, served through a runtime table-driven EbmlSpecification; plus the macro-derived V and W (W has placeholders in trailing and intermediate position). For every chain reachable in the REFERENCE transition relation up to the depth bound, every tag of the specification is probed: writer (chain known-size / unknown-size; probe written plainly, for masters also started with unknown size via both calls, and plainly after a REJECTED End of a master that is not the innermost open one) and strict reader (byte stream = chain headers with none / all / each single / all-but-one unknown-size + probe; and the same streams with an element of an id outside the specification in front of the probe, unknown ids tolerated, which must change no decision). Oracle: accepted iff ref_path_match(path(tag), chain) (root elements iff empty chain); reader: judged against the chain remaining after the closings RefClose prescribes, with the Ends emitted first; rejections are UnexpectedTag / HierarchyError carrying the probe id. Non-trivial: probes whose path contains a placeholder under a non-empty chain.");
     ctx.meta("bounds", &format!("chain depth <= {}, <= {} placeholders per specification", depth, max_placeholders));
     ctx.meta("assumptions", "reader-side probes use chains whose outermost master is non-global (before the first non-global element the position in the document is unknown by the statement) || specifications are consistent tables (what the derive macro emits; C18 checks the macro against such tables)");
-    for c in ["writer_probe_allowed", "writer_probe_forbidden", "reader_probe_allowed", "reader_probe_forbidden", "reader_probe_closing_unknown_size_masters", "reader_probe_behind_a_tolerated_unknown_id", "specs"] {
+    for c in ["writer_probe_allowed", "writer_probe_forbidden", "reader_probe_allowed", "reader_probe_forbidden", "reader_probe_closing_unknown_size_masters", "reader_probe_behind_a_tolerated_unknown_id", "writer_probe_after_a_rejected_end", "specs"] {
         ctx.expect_nonzero(c);
     }
     // macro-derived specifications
